@@ -114,6 +114,10 @@ class Check:
         self.assumptions = []
         self.rule = ''
         self.min_distinct = 2
+        # replay files are rewritten by every run
+        import shutil
+        if not os.environ.get('VERIF_KEEP_REPLAYS'):
+            shutil.rmtree(os.path.join(VERIF, 'replays', prop), ignore_errors=True)
 
     @property
     def thorough(self):
@@ -329,3 +333,45 @@ def replay_requests(case):
     finally:
         for d in ds.values():
             d.close()
+
+
+def shrink_bytes(src, still_fails, budget=400):
+    """Delta-debug `src` (bytes) while still_fails(candidate) stays true.  Lines first, then bytes.
+    Bounded by `budget` oracle calls.  Returns the reduced bytes."""
+    calls = [0]
+
+    def test(c):
+        if calls[0] >= budget:
+            return False
+        calls[0] += 1
+        try:
+            return bool(still_fails(c))
+        except Exception:
+            return False
+
+    def ddmin(parts, join):
+        n = 2
+        while len(parts) >= 2 and calls[0] < budget:
+            chunk = max(1, len(parts) // n)
+            reduced = False
+            for i in range(0, len(parts), chunk):
+                cand = parts[:i] + parts[i + chunk:]
+                if cand and test(join(cand)):
+                    parts = cand
+                    n = max(n - 1, 2)
+                    reduced = True
+                    break
+            if not reduced:
+                if chunk == 1:
+                    break
+                n = min(len(parts), n * 2)
+        return parts
+
+    lines = src.split(b'\n')
+    lines = ddmin(lines, lambda p: b'\n'.join(p))
+    cur = b'\n'.join(lines)
+    if len(cur) <= 400:
+        bs = [cur[i:i + 1] for i in range(len(cur))]
+        bs = ddmin(bs, lambda p: b''.join(p))
+        cur = b''.join(bs)
+    return cur
